@@ -94,8 +94,9 @@ M("xmap-restore-transposed", ["C01", "C02"], "gaddlemaps/_exchage_map.py",
   "        return center + np.dot(proyection, vectores)", "        return center + np.dot(vectores, proyection)")
 M("xmap-two-atom-axis-random", ["C02"], "gaddlemaps/_exchage_map.py",
   "            positions = np.array([pos[0], *rand_pos, *pos[1:]])", "            positions = np.append(pos, rand_pos, axis=0)")
-M("frame-exact-zero-collinear-test", ["C02", "C17"], "gaddlemaps/_auxilliary.py",
-  "    if np.linalg.norm(vec3) <= 1e-9*np.linalg.norm(vec_aux):", "    if not np.any(vec3):")
+# ("frame-exact-zero-collinear-test" -- the collinear test reduced to `not np.any(vec3)` -- was retired after repair 9caca46:
+#  with the normal re-orthogonalised against the first vector, a rounding-noise normal still gives an orthonormal frame
+#  whose third vector is SOME perpendicular of the line, which is all the properties ask of collinear points.)
 M("frame-fallback-z-axis-forgotten", ["C01", "C17"], "gaddlemaps/_auxilliary.py",
   "        if abs(v12) < 0.9:", "        if abs(v12) < 2:")
 # ---- Monte-Carlo loop -------------------------------------------------------------------
@@ -270,8 +271,10 @@ M("manager-options-zipped-by-position", ["C10"], "gaddlemaps/_manager.py",
   "        for name in restrictions:\n            restr = restrictions[name]\n            defor = deformation_types[name]\n            ignor = ignore_hydrogens[name]",
   "        for (name, restr), defor, ignor in zip(restrictions.items(), deformation_types.values(), ignore_hydrogens.values()):")
 M("premature-check-after-open", ["C05"], "gaddlemaps/_manager.py",
-  ["        for align in complete_correspondence.values():\n            if align.exchange_map is None:\n                raise SystemError(('Before extrapolating the system, '\n                                   'calculate_exchange_maps method must be '\n                                   'called.'))\n\n        with open_coordinate_file(fgro_out, 'w') as fgro:\n"],
-  ["        with open_coordinate_file(fgro_out, 'w') as fgro:\n            for align in complete_correspondence.values():\n                if align.exchange_map is None:\n                    raise SystemError('calculate_exchange_maps method must be called.')\n"])
+  ["        for align in complete_correspondence.values():\n            if align.exchange_map is None:\n                raise SystemError(('Before extrapolating the system, '\n                                   'calculate_exchange_maps method must be '\n                                   'called.'))\n",
+   "        with open_coordinate_file(fgro_out, 'w') as fgro:\n            fgro.comment = self.system.system_gro.comment_line\n"],
+  ["",
+   "        with open_coordinate_file(fgro_out, 'w') as fgro:\n            for align in complete_correspondence.values():\n                if align.exchange_map is None:\n                    raise SystemError('calculate_exchange_maps method must be called.')\n            fgro.comment = self.system.system_gro.comment_line\n"])
 # ---- command line ------------------------------------------------------------------------------
 M("cli-ignores-scale", ["C20"], "gaddlemaps/_cli.py",
   "    manager.calculate_exchange_maps(scale_factor=scale)", "    manager.calculate_exchange_maps()")
